@@ -11,6 +11,25 @@ Why(e) == LET w == Enc(e.i) IN
           IF w = <<>> THEN ""
           ELSE IF ~e.acc THEN "rejected"
           ELSE IF e.b = BytesOfWord(w) THEN "" ELSE "bytes are not the architecture encoding"
+\* C06, decided with the manual's field widths: an operand the field cannot hold is an error; an operand it can hold
+\* is encoded as the manual says (events of the 64-bit word forms carry them as well)
+\* the property lets an assembler take the signed and the unsigned spelling of one field value (addi x1, x2, 4095 for
+\* the 12-bit field 0xfff = -1): Alt(i) is the other spelling of i's operand in a field of FieldBits(i.op) bits
+FieldBits(op) == IF op \in DOMAIN OpSh \cup DOMAIN OpShW THEN 5
+                 ELSE IF op \in DOMAIN OpB THEN 13 ELSE IF op = "jal" THEN 21 ELSE IF op \in {"lui", "auipc"} THEN 20 ELSE 12
+Alt(i) == LET n == FieldBits(i.op) IN
+          IF i.imm >= 2 ^ (n - 1) /\ i.imm < 2 ^ n THEN [i EXCEPT !.imm = @ - 2 ^ n]
+          ELSE IF i.imm < 0 /\ i.imm >= -(2 ^ (n - 1)) THEN [i EXCEPT !.imm = @ + 2 ^ n]
+          ELSE i
+FitWhy(e) == LET w == EncAny(e.i)
+                 wa == EncAny(Alt(e.i)) IN
+             IF w # <<>> THEN (IF ~e.acc THEN "rejected" ELSE IF e.b = BytesOfWord(w) THEN "" ELSE "bytes are not the architecture encoding")
+             ELSE IF Alt(e.i) # e.i /\ wa # <<>> THEN (IF e.acc /\ e.b # BytesOfWord(wa) THEN "bytes are not the architecture encoding of the field value" ELSE "")
+             ELSE IF e.acc THEN "an operand that does not fit its field was accepted" ELSE ""
+ReportFit ==
+  IF l > Len(Tr) THEN PrintT("VERDICT " \o ToJson([done |-> Len(Tr)]))
+  ELSE LET e == Tr[l] w == FitWhy(e) IN
+       w = "" \/ PrintT("VERDICT " \o ToJson([id |-> e.id, why |-> w]))
 Report ==
   IF l > Len(Tr) THEN PrintT("VERDICT " \o ToJson([done |-> Len(Tr)]))
   ELSE LET e == Tr[l] w == Why(e) IN
